@@ -1,2 +1,132 @@
-/-! line-protocol driver for property C14 (stub) -/
-def main (_args : List String) : IO Unit := pure ()
+import MirVerif.Model.Section
+/-! line-protocol driver for property C14: reads the same case descriptions as `harness/c14_harness.c`
+and prints what the model (`MirVerif.Section.load` / `link`) says about every item. -/
+open MirVerif.Section
+
+namespace C14Drv
+
+def hexDigit (c : Char) : Nat :=
+  if '0' ≤ c ∧ c ≤ '9' then c.toNat - '0'.toNat
+  else if 'a' ≤ c ∧ c ≤ 'f' then c.toNat - 'a'.toNat + 10
+  else if 'A' ≤ c ∧ c ≤ 'F' then c.toNat - 'A'.toNat + 10 else 0
+
+def parseHex (s : String) : List Nat :=
+  let rec go : List Char → List Nat
+    | a :: b :: rest => (hexDigit a * 16 + hexDigit b) :: go rest
+    | _ => []
+  if s == "-" then [] else go s.toList
+
+def hexOf (b : Nat) : String :=
+  let d (n : Nat) : Char := if n < 10 then Char.ofNat (n + 48) else Char.ofNat (n - 10 + 97)
+  String.ofList [d (b / 16 % 16), d (b % 16)]
+
+def cellsHex (cs : List Cell) : String :=
+  String.join (cs.map fun c => match c with | .byte b => hexOf b | .undef => "??")
+
+def parseTy (s : String) : Option Ty :=
+  match s with
+  | "i8" => some .i8 | "u8" => some .u8 | "i16" => some .i16 | "u16" => some .u16
+  | "i32" => some .i32 | "u32" => some .u32 | "i64" => some .i64 | "u64" => some .u64
+  | "f" => some .f | "d" => some .d | "ld" => some .ld | "p" => some .p | _ => none
+
+def optName (s : String) : Option String := if s == "-" then none else some s
+
+/-- the defining line of `name` (a data-ish item, func, efunc or lfunc with that name) -/
+def findDef (lines : Array (List String)) (nm : String) : Option Nat :=
+  (List.range lines.size).find? fun i =>
+    match lines[i]! with
+    | kind :: n :: _ => n == nm && kind ∈ ["data", "bss", "ref", "expr", "lref", "func", "efunc", "lfunc"]
+    | _ => false
+
+def mkItem (lines : Array (List String)) (toks : List String) : Except String Item :=
+  match toks with
+  | ["data", n, ty, nel, hex] =>
+    match parseTy ty, nel.toNat? with
+    | some t, some k => .ok (.data (optName n) t k (parseHex hex))
+    | _, _ => .error "bad data line"
+  | ["bss", n, len] =>
+    match len.toNat? with | some l => .ok (.bss (optName n) l) | none => .error "bad bss line"
+  | ["ref", n, k, disp] =>
+    match k.toNat?, disp.toInt? with
+    | some k, some d =>
+      let tgt := match lines[k]? with
+        | some ("forward" :: nm :: _) => (findDef lines nm).getD k
+        | _ => k
+      .ok (.ref (optName n) tgt d)
+    | _, _ => .error "bad ref line"
+  | ["expr", n, k] =>
+    match k.toNat? with
+    | some k =>
+      match lines[k]? with
+      | some ["efunc", _, ty, v] =>
+        match parseTy ty, v.toNat? with
+        | some t, some v => .ok (.expr (optName n) t v)
+        | _, _ => .error "bad efunc line"
+      | _ => .error "expr does not refer to an efunc"
+    | none => .error "bad expr line"
+  | ["lref", n, _k, lab, lab2, disp] =>
+    match lab.toNat?, disp.toInt? with
+    | some l, some d => .ok (.lref (optName n) l (if lab2 == "-" then none else lab2.toNat?) d)
+    | _, _ => .error "bad lref line"
+  | kind :: _ =>
+    if kind ∈ ["import", "forward", "export", "proto", "func", "efunc", "lfunc"] then .ok .other
+    else .error s!"unknown line kind {kind}"
+  | [] => .error "empty line"
+
+def kindOf : Item → String
+  | .data .. => "data" | .bss .. => "bss" | .ref .. => "ref" | .lref .. => "lref" | .expr .. => "expr"
+  | .other => "other"
+
+def env : Env := { base := fun s => (s + 1) * 2 ^ 24, other := fun j => 2 ^ 40 + j * 2 ^ 12 }
+
+def decodeLE (cs : List Cell) : Option Nat :=
+  cs.foldr (fun c acc => match c, acc with | .byte b, some v => some (b + 256 * v) | _, _ => none) (some 0)
+
+def toSigned64 (v : Nat) : Int := if v < 2 ^ 63 then (v : Int) else (v : Int) - (2 ^ 64 : Int)
+
+def runCase (id : String) (lines : Array (List String)) : List String := Id.run do
+  let mut items : List Item := []
+  for toks in lines.toList do
+    match mkItem lines toks with
+    | .ok it => items := items ++ [it]
+    | .error e => return [s!"case {id}", s!"error {e}", "end"]
+  let r := load items
+  let g := link env items
+  let mut out : List String := [s!"case {id}"]
+  let mut pos := 0
+  for (it, p) in items.zip r.pl do
+    match p with
+    | none => out := out ++ [s!"other {pos}"]
+    | some p =>
+      let sz := it.plSize
+      let cells := (List.range sz).map fun k => g p.sec (p.off + k)
+      let payload :=
+        match it with
+        | .ref _ tgt _ =>
+          match decodeLE cells with
+          | some v => s!"delta={toSigned64 ((v + 2 ^ 64 - addrOf env r.pl tgt % 2 ^ 64) % 2 ^ 64)}"
+          | none => "delta=undef"
+        | .lref .. => "lref=ok"
+        | _ => s!"bytes={cellsHex cells}"
+      out := out ++ [s!"item {pos} {kindOf it} sec={p.sec} off={p.off} size={sz} {payload}"]
+    pos := pos + 1
+  for s in r.secs do
+    out := out ++ [s!"sec {s.head} size={s.size}"]
+  return out ++ ["end"]
+
+partial def loop (h : IO.FS.Stream) (cur : Option (String × Array (List String))) : IO Unit := do
+  let line ← h.getLine
+  if line.isEmpty then return ()
+  let toks := (line.trimAscii.toString.splitOn " ").filter (· ≠ "")
+  match toks, cur with
+  | "case" :: id :: _, _ => loop h (some (id, #[]))
+  | ["end"], some (id, ls) =>
+    for l in runCase id ls do IO.println l
+    loop h none
+  | [], _ => loop h cur
+  | _, some (id, ls) => loop h (some (id, ls.push toks))
+  | _, none => loop h none
+
+end C14Drv
+
+def main (_args : List String) : IO Unit := do C14Drv.loop (← IO.getStdin) none
